@@ -10,8 +10,9 @@ import (
 // argument names a node (refine, augment, augment below uses, deviation, leafref path, key, unique;
 // must / when are XPath) is fed the whole family — relative / absolute × unprefixed / own prefix /
 // import prefix / unknown prefix × existing / non-existing target × ".", "..", "../..", "//",
-// trailing "/", empty — in particular absolute and prefixed forms where only descendant forms are
-// legal (refine, uses-augment, unique, key) and the reverse.  Whatever code interprets such an
+// trailing "/", empty, key predicates and damaged brackets ("[k=1]", "[", "]", "][", "]k[", "[[", "]]",
+// nested, unbalanced) at every step position — in particular absolute and prefixed forms where only
+// descendant forms are legal (refine, uses-augment, unique, key) and the reverse.  Whatever code interprets such an
 // argument, now or in future, meets all of them.
 
 var pathKw = map[string]bool{"refine": true, "augment": true, "deviation": true, "path": true, "key": true, "unique": true, "must": true, "when": true}
@@ -57,7 +58,9 @@ func prefixesOf(top *mnode) (own string, imports []string) {
 
 var pathSpecials = []string{"", "/", ".", "..", "../..", "//", "/.", "/..", "./.", "a//b", "/a//b", "a/", "/a/", "a/./b", "a/../b", "../../../../../..",
 	":", ":a", "a:", "/:a", "/a:", "a:b:c", "/a:b:c/d", " ", "a / b", "/ a", "a\tb", "a b", "a|b", "*", "/*", "a/*", "@a", "a[1]", "a[b='c']/d", "a[b=current()/../c]",
-	"current()", "current()/..", "deref(../a)/b", "/a[", "a]", "(", "a and b", "1", "-1", "a/0", "\"", "'", "a\x00b", "é/☃", "/é:☃"}
+	"current()", "current()/..", "deref(../a)/b", "/a[", "a]", "(", "a and b", "1", "-1", "a/0", "\"", "'", "a\x00b", "é/☃", "/é:☃",
+	// key predicates and what is left of them when damaged (the whole family is in bracketShapes, readback.go)
+	"a[k=1]", "/a[k=1]/b", "[", "]", "][", "a][", "/a][", "a]k[", "/a/b]k[", "[[", "]]", "[]", "a[]", "a[[]", "a[]]", "]][[", "a[k=[1]]", "a[k=1][v=2]/b", "a[k=1", "ak=1]", "a]/[b", "a[/]b"}
 
 // pathForm writes steps as a path in one of the forms of the family.
 func pathForm(r *rand.Rand, steps []string, own string, imports []string) string {
@@ -112,6 +115,19 @@ func pathForm(r *rand.Rand, steps []string, own string, imports []string) string
 			s = p + ":" + s
 		}
 		parts = append(parts, s)
+	}
+	if r.Intn(5) == 0 {
+		// a bracket shape at a step position: after the step, in front of it, or as a step of its own
+		sh := bracketShapes[r.Intn(len(bracketShapes))]
+		k := r.Intn(len(parts))
+		switch r.Intn(4) {
+		case 0, 1:
+			parts[k] += sh
+		case 2:
+			parts[k] = sh + parts[k]
+		default:
+			parts = append(parts[:k:k], append([]string{sh}, parts[k:]...)...)
+		}
 	}
 	out := strings.Join(parts, "/")
 	switch r.Intn(8) {
